@@ -7,8 +7,10 @@ package app
 // Each request runs under the vrt runtime (virtual time for slow/hang/chunked, loop horizon).
 
 import (
+	"context"
 	"fmt"
 	"net/http"
+	"net/http/httptest"
 	"net/url"
 	"os"
 	"path/filepath"
@@ -19,6 +21,7 @@ import (
 	"github.com/Dash-Industry-Forum/livesim2/internal/vshim/vref"
 	"github.com/Dash-Industry-Forum/livesim2/internal/vshim/vrt"
 	"github.com/Dash-Industry-Forum/livesim2/pkg/drm"
+	"github.com/Dash-Industry-Forum/livesim2/pkg/logging"
 )
 
 type c08Key struct {
@@ -384,6 +387,34 @@ func TestVerifC08(t *testing.T) {
 			c2 := c
 			c2.label += "-nodrmcfg"
 			c08Run(rep, srvNoDRM, c2)
+		}
+	}
+
+	// a server with the request limiter switched on: header values that name the client
+	if sh, _ := vh.Shard(); sh == 0 {
+		lcfg := ServerConfig{VodRoot: vBundledRoot, TimeoutS: 0, LogFormat: logging.LogDiscard, MaxRequests: 1000, ReqLimitInt: 3600, WhiteListBlocks: "10.0.0.0/8"}
+		if lsrv, err := SetupServer(context.Background(), &lcfg); err != nil {
+			rep.Note("server with request limiter not started: %v", err)
+		} else {
+			for _, xff := range []string{"", " ", ",", ", 10.0.0.7", " , a, b", "1.2.3.4", "1.2.3.4, 10.0.0.1", "1.2.3.4:80", "[::1]:80", "[::1]", "::1", "unknown", "a,b", "[", "]:", ":", "::", ":80", "1.2.3.4:", strings.Repeat("1", 5000), "10.0.0.7,", "\t"} {
+				for _, remote := range []string{"9.9.9.9:1000", "[2001:db8::1]:1000", "9.9.9.9", "", ":", "nonsense:1", "[::1"} {
+					for _, u := range []string{"/livesim2/testpic_2s/Manifest.mpd?nowMS=100000", "/livesim2/testpic_2s/V300/40.m4s?nowMS=100000", "/reqcount", "/vod/testpic_2s/Manifest.mpd"} {
+						req := httptest.NewRequest("GET", u, nil)
+						req.RemoteAddr = remote
+						if xff != "" {
+							req.Header["X-Forwarded-For"] = []string{xff}
+						}
+						w := httptest.NewRecorder()
+						lsrv.Router.ServeHTTP(w, req)
+						rep.AddStates(1)
+						rep.AddExecs(1)
+						rep.Hit("C08.a")
+						if w.Code == 500 && w.Body.Len() == 0 { // chi's Recoverer
+							rep.Violate("C08.a", "panic:limiter:client-address", fmt.Sprintf("GET %s with X-Forwarded-For %q from %q: the handler crashed (empty 500)", u, xff, remote), map[string]any{"url": u, "x-forwarded-for": xff, "remote": remote})
+						}
+					}
+				}
+			}
 		}
 	}
 
